@@ -297,6 +297,9 @@ class Scheduler:
     """Starts the schedule and waits for all controlled threads."""
     global ACTIVE
     ACTIVE = self
+    import gc
+    gc_was_enabled = gc.isenabled()
+    gc.disable()
     try:
       if not self.threads:
         return self
@@ -318,6 +321,8 @@ class Scheduler:
         self.witness = {'leaked_os_threads': leaked}
     finally:
       ACTIVE = None
+      if gc_was_enabled:
+        gc.enable()
     return self
 
   def trace_hash(self) -> str:
